@@ -1,7 +1,8 @@
 """C03 — decoding untrusted bytes is memory-safe, bounded and terminating.  Structure-aware mutants of valid frames, random bytes behind
 valid magics, arbitrary bytes as dictionaries, multi-DDict lookups with attacker-chosen dictIDs, legacy-format bytes: every decoding
 and inspection entry point runs in the ASan+UBSan build on exact-size buffers under a per-operation alarm; verdict and bytes of the
-current-format decoder are compared with the independent Lean decoder (Model/Frame.lean)."""
+current-format decoder are compared with the independent Lean decoder (Model/Frame.lean).  settings_and_histories: truncation sweeps under
+every decompression-parameter setting and histories of frames through static decoding contexts (harness/zvh_c03.c)."""
 import build, zv, frames, datagen
 
 ASSUMPTIONS = ["legacy decoders v0.5-v0.7 are not modelled: for legacy magics only the monitors apply (sanitizer, alarm, result <= capacity) - that part is fuzzing and labelled as such",
@@ -34,6 +35,187 @@ def mutate(rng, f, others):
     else:
         f = bytearray(rng.choice(MAGICS) + datagen.randbytes(rng, rng.choice([0, 1, 5, 9, 20, 200, 3000])))
     return bytes(f)
+
+
+def _data(rng, n):
+    return rng.choice(datagen.KINDS + [datagen.mixed, datagen.mixed, datagen.text, datagen.longcopies, datagen.noisecopies])(rng, n)
+
+
+def announce(f, wlog):
+    """the same frame with a larger window announced in its header (window descriptor byte; None when the frame has none): still a valid frame"""
+    if len(f) < 6 or f[:4] != MAGICS[0] or (f[4] & 0x20):
+        return None
+    return f[:5] + bytes([(wlog - 10) << 3]) + f[6:]
+
+
+def settings_and_histories(ctx, plain):
+    """Directed families over decoder SETTINGS and HISTORIES (the random mutants above run with default settings on a fresh session).
+    (1) trsweep: every truncation of valid (checksummed / unchecksummed, single / multi-block, concatenated, skippable-separated, magicless, dictionary)
+        frames x the cross product of the decompression parameters x {one-shot, DDict one-shot, streaming}, the truncated input ending exactly at the
+        end of a heap block (ASan); prefixes that an entry point took for complete are put to the Lean decoder.
+    (2) sdhist: static decoding contexts (caller-owned area, exact-size heap block under ASan and canary-surrounded arena) of sizes around the
+        estimate, used for histories of frames that need more / exactly / less than the area holds, with every kind of reset between them:
+        no access outside the area, and after a reset the verdict equals that of a fresh static context of the same size."""
+    import time
+    t0 = time.time()
+    rng = zv.Rng(ctx.seed * 7919 + 303)
+    exe = build.link("zvh_c03", ["zvh_c03.c"], "san")
+    q = ctx.quick()
+    # ---- (1) frames for the truncation x settings sweep
+    cl, meta = [], []
+    sizes = [0, 1, 2, 5, 17, 60, 200, 300, 700, 1500, 2500, 4000, 9000, 20000, 20000, 150000] * (2 if q else 12)
+    for i, n in enumerate(sizes):
+        k = rng.random()
+        x = datagen.randbytes(rng, n) if k < 0.25 else _data(rng, n)
+        p = {frames.P["level"]: rng.choice([-1, 1, 3, 3, 5, 9]), frames.P["checksum"]: 0 if i % 4 == 3 else 1}
+        if rng.random() < 0.4: p[frames.P["contentSize"]] = 0
+        if rng.random() < 0.3: p[frames.P["windowLog"]] = rng.choice([10, 11, 14])
+        if rng.random() < 0.25: p[frames.P["maxBlockSize"]] = rng.choice([1024, 1024, 4096])
+        if rng.random() < 0.2: p[frames.P["litMode"]] = rng.choice([1, 2])
+        fmt = 1 if i % 5 == 4 else 0
+        if fmt: p[frames.P["fmt"]] = 1
+        d = datagen.text(rng, rng.choice([40, 300, 2000])) if i % 6 == 5 else None
+        cl.append("comp2 c2 %s %s%s" % (frames.pstr(p), frames.hx(x), (" " + frames.hx(d)) if d else "")); meta.append((x, fmt, d))
+    frs = frames.run_lines(plain, cl)[1]
+    cases = [(bytes.fromhex(f) if f != "-" else b"", x, fmt, d) for f, (x, fmt, d) in zip(frs, meta) if not f.startswith("err")]
+    plainf = [c for c in cases if c[2] == 0 and c[3] is None and len(c[0]) < 3000]
+    for _ in range(10 if q else 60):      # concatenations, skippable frames between / behind them
+        parts, xs = [], b""
+        for j in range(rng.choice([2, 2, 3])):
+            f, x, _, _ = rng.choice(plainf); parts.append(f); xs += x
+            if rng.random() < 0.4:
+                sk = datagen.randbytes(rng, rng.choice([0, 1, 3, 9])); parts.append(bytes([0x50 + rng.randrange(16), 0x2A, 0x4D, 0x18]) + len(sk).to_bytes(4, "little") + sk)
+        cases.append((b"".join(parts), xs, 0, None))
+    tops = ["trsweep %d %d %s%s" % (fmt, rng.choice([len(x), len(x), len(x) + 64]), frames.hx(f), (" " + frames.hx(d)) if d else "") for f, x, fmt, d in cases]
+    # ---- (2) static-context histories
+    bl, bx = [], []
+    for i in range(12 if q else 60):
+        n = rng.choice([3000, 9000, 20000, 40000]) if i % 4 else 150000
+        k = rng.random()
+        x = _data(rng, n) if k < 0.7 else (datagen.randbytes(rng, n // 2) + datagen.text(rng, n - n // 2))
+        p = {frames.P["level"]: rng.choice([1, 3, 5]), frames.P["windowLog"]: (rng.choice([10, 10, 11, 12, 13]) if i % 4 else 17), frames.P["checksum"]: rng.randrange(2)}
+        if i % 3: p[frames.P["contentSize"]] = 0
+        bl.append("comp2 c2 %s %s" % (frames.pstr(p), frames.hx(x))); bx.append((x, p[frames.P["windowLog"]]))
+    bfr = [(bytes.fromhex(f), x, wl) for f, (x, wl) in zip(frames.run_lines(plain, bl)[1], bx) if not f.startswith("err") and f != "-"]
+    sops, sinfo = [], []
+    for i in range(140 if q else 1400):
+        B, x, wl = bfr[i % len(bfr)]
+        big = rng.choice([w_ for w_ in (wl + 1, wl + 2, 15, 17, 17, 20, 27) if w_ > wl])
+        A = announce(B, big) or B                                                     # valid: a window larger than the frame needs
+        fl = [(A, len(x)), (B, len(x))]
+        if rng.random() < 0.5:
+            B2, x2, wl2 = rng.choice(bfr); fl.append((B2, len(x2)))
+        nvalid = len(fl)
+        if rng.random() < 0.4:                                                         # untrusted: a mutant, or a window smaller than the frame uses
+            fl.append(((announce(B, rng.randint(10, wl - 1)) if wl > 10 and rng.random() < 0.3 else None) or mutate(rng, rng.choice([A, B]), []), len(x)))
+        spec = rng.choice(["W%d" % wl, "W%d-8" % wl, "W%d-1" % wl, "W%d-%d" % (wl, rng.randint(1, 3000)), "W%d+%d" % (wl, rng.randint(1, 40)), "W10", "W10-8", "W%d" % max(10, wl - 1),
+                           "D+0", "D+%d" % rng.randint(1, 5000), "F1", "F1-8", "F1-%d" % rng.randint(1, 600), "F0-8", "F0-%d" % rng.randint(1, 70000)])
+        dp = rng.choice(["-", "-", "-", "-", "1001=1", "100=%d" % rng.choice([10, 11, 17]), "1005=1024", "1002=1", "1004=1"])
+        steps = []
+        for j in range(rng.randint(3, 7)):
+            fi = (j % 2) if j < 3 else rng.randrange(len(fl))                          # begins A, B, A: a frame that does not fit, one that may, again
+            rk = "n" if j == 0 else rng.choice("sssiipnno")
+            steps.append("%d:%s:%d:%d" % (fi, rk, rng.choice([1000, 1000, 7, 333, 100000, 5000]), rng.choice([4096, 100000, 1000, 65536])))
+        for mode in "ea":
+            sops.append("sdhist %s %s %s %s %s" % (mode, spec, dp, ",".join(steps), " ".join("%d:%s" % (c, frames.hx(f)) for f, c in fl))); sinfo.append((steps, fl[:nvalid], dp == "-"))
+    allops = tops + sops
+    def run(idx):
+        rc, out, err = frames.run_lines(exe, [allops[i] for i in idx], timeout=900)
+        return [(rc, out, err, idx)]
+    order = list(range(len(allops))); rng.shuffle(order)
+    res = {}
+    for rc, out, err, idx in frames.parallel(run, frames.split_chunks(order, 16)):
+        for i, o in zip(idx, out):
+            res[i] = o
+        if rc != 0:
+            bad = idx[min(len(out), len(idx) - 1)]
+            if out and out[-1] == "TIMEOUT":
+                bad = idx[len(out) - 1]
+            what = "did not return within its alarm (hang)" if "TIMEOUT" in out else "aborted (sanitizer report / crash)"
+            k = err.find("ERROR:")
+            ctx.violation("decoding under non-default settings / on a static context %s: %s :: %s" % (what, allops[bad][:100], (err[k:k + 900] if k >= 0 else err[-700:])),
+                          dict(kind="monitor", harness="zvh_c03", op=allops[bad][:400000], stderr=err[-3000:]))
+    ev = dict(trsweep_ops=len(tops), trsweep_evals=0, trsweep_accepted_prefixes=0, sdhist_ops=len(sops), sdhist_steps=0, sdhist_steps_compared=0, sdhist_mem_errors=0, sdhist_ok=0)
+    # (1) monitors + tie of accepted prefixes
+    mlines, mwhat = [], []
+    for i, (f, x, fmt, d) in enumerate(cases):
+        o = res.get(i)
+        if not o or not o.startswith("trsweep n="):
+            continue
+        kv = dict(w.split("=", 1) for w in o.split()[1:])
+        ev["trsweep_evals"] += int(kv["evals"])
+        if kv["over"] != "0":
+            ctx.violation("a decoding entry point under non-default settings reported more bytes than the capacity it was given", dict(kind="monitor", harness="zvh_c03", op=tops[i][:400000], result=o))
+        if kv["accepted"] != "-":
+            for cut in sorted({int(a.split("/")[2]) for a in kv["accepted"].split(",")}):
+                cap = len(x) + 64
+                mlines.append(("decf 1 %d %s" % (cap, frames.hx(f[:cut]))) if fmt else ("dec %d %s%s" % (cap, frames.hx(f[:cut]), (" " + frames.hx(d)) if d else "")))
+                mwhat.append((i, cut, o))
+    if mlines:
+        for (i, cut, o), mm in zip(mwhat, frames.model_lines(mlines)):
+            ev["trsweep_accepted_prefixes"] += 1
+            if mm.startswith("err") and not mm.startswith("err lax"):
+                ctx.violation("the first %d bytes of a %d-byte valid input were taken for a complete input under some decoder setting (%s); the Lean decoder rejects them: %s" % (cut, len(cases[i][0]), o.split("accepted=")[1], mm),
+                              dict(kind="tie", correspondence="decoding entry points under decompression parameters vs Model/Frame.decompressAll", harness="zvh_c03", op=tops[i][:400000], cut=cut, impl=o, model=mm))
+    # (2) monitors of the static-context histories
+    # the room test of a static area as the model states it (Model/DBuf.lean: single pass / buffered with max(blockSizeMax,4) + ring, default window limit):
+    # valid frames, default settings; asked per step because the single-pass decision depends on the step's chunk sizes
+    tl, tkey = [], []
+    for j, (steps, vfl, dflt) in enumerate(sinfo):
+        for k, st in enumerate(steps):
+            fi, rk, ic, oc = st.split(":")
+            if dflt and rk != "o" and int(fi) < len(vfl):
+                f, cap = vfl[int(fi)]
+                tl.append("dhdr %s %d %d %d" % (frames.hx(f[:24]), (1 << 27) + 1, min(int(oc), cap), 1 if int(ic) >= len(f) else 0)); tkey.append((j, k))
+    rcm, mout, merr = zv.run([zv.driver_exe(), "mem"], "\n".join(tl) + "\n", timeout=600)
+    if rcm != 0 or len(mout.split("\n")) < len(tl):
+        raise RuntimeError("lean driver mem (dhdr) failed: " + merr[-400:])
+    room = dict(zip(tkey, mout.split("\n")))
+    ev["sdhist_steps_vs_model"] = 0
+    for j, (steps, vfl, dflt) in enumerate(sinfo):
+        o = res.get(len(tops) + j)
+        if not o or not o.startswith("sdhist size="):
+            continue
+        w = o.split()
+        if w[3] == "init-null":
+            continue
+        pairs = w[3:3 + len(steps)]
+        tail = dict(t.split("=", 1) for t in w[3 + len(steps):])
+        op = sops[j][:400000]
+        if tail.get("canary") != "ok":
+            ctx.violation("a static decoding context wrote outside the area it was given (%s = step:offset from the end of the area): %s" % (tail.get("canary"), o[:300]), dict(kind="monitor", harness="zvh_c03", op=op, result=o))
+        if tail.get("overcap") != "0":
+            ctx.violation("a static decoding context reported positions beyond the buffers it was given: %s" % o[:300], dict(kind="monitor", harness="zvh_c03", op=op, result=o))
+        prev_ok = True
+        if len(ctx.violations) >= 6:
+            break
+        avail = int(w[1].split("=")[1]) - int(w[2].split("=")[1])      # area minus the context proper
+        for k, (st, pr) in enumerate(zip(steps, pairs)):
+            h, f = pr.split("|")
+            rk = st.split(":")[1]
+            mv = room.get((j, k))
+            if mv and (rk != "n" or prev_ok) and mv.startswith("verdict=") and "held=" in mv:
+                mkv = dict(t.split("=", 1) for t in mv.split())
+                want = "ok" if mkv["verdict"] == "single" or (mkv["verdict"] == "buffered" and int(mkv["held"]) <= avail) else "err:memory_allocation" if mkv["verdict"] == "buffered" else "err"
+                ev["sdhist_steps_vs_model"] += 1
+                if not h.startswith(want):
+                    ctx.violation("static decoding context with %d bytes behind the context proper, step %s of the history: the implementation says %s, the model of the room test (%s) says %s: %s" % (avail, st, h, mv, want, o[:200]),
+                                  dict(kind="tie", correspondence="zdss_loadHeader room test of a static context vs Model/DBuf.loadHeader", harness="zvh_c03", op=op, result=o, step=st, model=mv), no_input=not h.startswith("ok"))
+                    break
+            ev["sdhist_steps"] += 1
+            ev["sdhist_mem_errors"] += h == "err:memory_allocation"; ev["sdhist_ok"] += h.startswith("ok")
+            # after a reset, after a completed frame, or the one-shot entry point (which does not look at the streaming state); valid frames only: what
+            # an INVALID frame runs into may depend on the buffers left by earlier frames (offsets are checked against the history present, not the announced window)
+            if (rk != "n" or prev_ok) and int(st.split(":")[0]) < len(vfl):
+                ev["sdhist_steps_compared"] += 1
+                if h != f:
+                    ctx.violation("a static decoding context answers a frame differently after a history than a fresh context of the same size and settings does (step %s: history %s, fresh %s) - "
+                                  "the room test of the static area depends on earlier frames: %s" % (st, h, f, o[:300]), dict(kind="monitor", harness="zvh_c03", op=op, result=o, step=st, nvalid=len(vfl)))
+                    break
+            if rk != "o":
+                prev_ok = h.startswith("ok")      # the streaming session is at a frame boundary
+    ev["wall_s"] = round(time.time() - t0, 1)
+    return ev
 
 
 def correspondence(ctx):
@@ -112,6 +294,7 @@ def correspondence(ctx):
             what = "did not return within its alarm (hang)" if any(o == "TIMEOUT" for o in out) else "aborted (sanitizer report / crash)"
             ctx.violation("decoding entry point %s on untrusted input: %s %s" % (what, ops[bad][:80], err[-600:]),
                           dict(kind="monitor", op=ops[bad][:400000], stderr=err[-3000:]))
+    ev_settings = settings_and_histories(ctx, plain)
     # the prefetching ("long") sequence decoder, normally reached only behind a cold dictionary or > 16 MiB of history: the sanitizer build with
     # that decoder forced decodes frames with > 64 KiB of literals and a few very long matches (split literal buffer, hand-over among the last
     # sequences) into exact, slightly too small and far too small capacities, plus mutants of those frames and a sample of the other operations
@@ -184,16 +367,41 @@ def correspondence(ctx):
     kinds = {}
     for k, _, _ in info:
         kinds[k] = kinds.get(k, 0) + 1
-    return dict(evaluations=ev, distinct_nontrivial=len({m for k, m, c in info if len(m) > 8}),
+    return dict(evaluations=ev + ev_settings["trsweep_evals"] + ev_settings["sdhist_steps"], distinct_nontrivial=len({m for k, m, c in info if len(m) > 8}),
                 rule="structure-aware mutants (bit flips biased to headers, byte replacement, truncation, range overwrite / delete / duplicate, splices, random bytes behind zstd / skippable / legacy / dictionary magics) of frames "
                      "from the real compressor; each through one entry point among {decompress, decompressStream under a segmentation, buffer-less decompressContinue, frame inspectors, findFrameCompressedSize, dictionary loaders on both sides} "
-                     "plus multi-DDict lookups with unregistered dictIDs at table sizes around the expansion points; ASan+UBSan build, exact-size buffers, 60 s alarm per operation; distinct = distinct mutant bytes > 8",
+                     "plus multi-DDict lookups with unregistered dictIDs at table sizes around the expansion points; ASan+UBSan build, exact-size buffers, 60 s alarm per operation; distinct = distinct mutant bytes > 8; "
+                     "plus (settings_and_histories) every truncation of valid frames x the cross product of the decompression parameters x {one-shot, DDict, streaming} from exact-size inputs, and histories of frames through static "
+                     "decoding contexts of sizes around the estimate (exact-size heap block and canary arena; verdict after a reset = verdict of a fresh context = room test of Model/DBuf)",
                 samples=[dict(op=ops[j][:90], impl=(cres.get(j) or ["?"])[0][:80], model=mres.get(j, "-")[:60]) for j in (0, 1, 2)],
-                entry_points=kinds, verdict_agreement=verd)
+                entry_points=kinds, verdict_agreement=verd, settings_and_histories=ev_settings)
 
 
 def replay(ctx, data):
-    exe = frames.harness(data.get("variant") or "san")
+    exe = build.link("zvh_c03", ["zvh_c03.c"], "san") if data.get("harness") == "zvh_c03" else frames.harness(data.get("variant") or "san")
     rc, out, err = frames.run_lines(exe, [data["op"]])
+    if data.get("harness") == "zvh_c03":
+        bad = rc != 0 or not out
+        for o in out:
+            if "canary=DAMAGED" in o or "overcap=1" in o or "over=1" in o:
+                bad = True
+            if o.startswith("sdhist"):
+                steps = data["op"].split()[4].split(","); prev_ok = True
+                for st, pr in zip(steps, o.split()[3:3 + len(steps)]):
+                    if "|" not in pr:
+                        break
+                    h, f = pr.split("|")
+                    if (st.split(":")[1] != "n" or prev_ok) and h != f and int(st.split(":")[0]) < data.get("nvalid", 2):
+                        bad = True
+                    if st.split(":")[1] != "o":
+                        prev_ok = h.startswith("ok")
+            if o.startswith("trsweep") and data.get("kind") == "tie":
+                w = data["op"].split(); f = bytes.fromhex(w[3]) if w[3] != "-" else b""
+                for cut in sorted({int(a.split("/")[2]) for a in o.split("accepted=")[1].split(",") if a != "-"}):
+                    ml = ("decf 1 %d %s" % (int(w[2]) + 64, frames.hx(f[:cut]))) if w[1] == "1" else ("dec %d %s%s" % (int(w[2]) + 64, frames.hx(f[:cut]), (" " + w[4]) if len(w) > 4 else ""))
+                    mm = frames.model_lines([ml])[0]
+                    if mm.startswith("err") and not mm.startswith("err lax"):
+                        bad = True
+        return dict(violates=bad, rc=rc, impl=out, stderr=err[-1500:])
     m = frames.model_lines([data["op"]]) if data["op"].split()[0] in ("dec", "fsize") else None
     return dict(violates=rc != 0 or (m is not None and m[0] != out[0] and (out[0].startswith("ok") or m[0].startswith("ok")) and not m[0].startswith("err lax")), rc=rc, impl=out, model=m, stderr=err[-1500:])
